@@ -31,7 +31,7 @@ theorem rd64_some (b : Bytes) (h : 8 ≤ b.length) : ∃ n r, rd64 b = some (n, 
 theorem decodeFixed_ok (t : TT) (b : Bytes) (hf : specFixed t > 0) (hl : specFixed t ≤ b.length) :
     ∃ v r, decodeFixed t b = .ok (v, r) ∧ r.length + specFixed t = b.length := by
   cases t with
-  | bool => obtain ⟨n, r, e, hr⟩ := rd8_some b hl; exact ⟨.sc n, r, by simp [decodeFixed, e], hr⟩
+  | bool => obtain ⟨n, r, e, hr⟩ := rd8_some b hl; exact ⟨.sc (if n = 1 then 1 else 0), r, by simp [decodeFixed, e], hr⟩
   | byte => obtain ⟨n, r, e, hr⟩ := rd8_some b hl; exact ⟨.sc n, r, by simp [decodeFixed, e], hr⟩
   | double => obtain ⟨n, r, e, hr⟩ := rd64_some b hl; exact ⟨.sc n, r, by simp [decodeFixed, e], hr⟩
   | i16 => obtain ⟨n, r, e, hr⟩ := rd16_some b hl; exact ⟨.sc n, r, by simp [decodeFixed, e], hr⟩
